@@ -57,6 +57,9 @@ def cases(tier, seed):
     # (probe sizes below 10 * patch_num are replaced by the default, which exceeds these inputs)
     for n, cs, src in itertools.product((23, 25, 30), (2, 3), ("frame", "hdf", "fits", "pq2")):
         out.append(dict(n=n, chunksize=cs, source=src, mode="create", probe_size=20))
+    # no chunk size given: the default applies (lowered to 4 for these cases)
+    for n, mode in itertools.product((9, 13), ("centres", "ids", "create")):
+        out.append(dict(n=n, chunksize=None, default_chunksize=4, source="frame", mode=mode))
     # parallel creation (virtual pool, submission order): the slices requested from the source obey the same rules
     for n, cs, W, mode in itertools.product((7, 9), (2, 3, 4), (2, 3), ("centres", "ids", "create")):
         out.append(dict(n=n, chunksize=cs, source="frame", mode=mode, W=W))
@@ -279,6 +282,12 @@ def run_case(case):
     from yaw.catalog import readers as R
 
     n, cs, src, mode = case["n"], case["chunksize"], case["source"], case["mode"]
+    default_before = R.CHUNKSIZE
+    if case.get("default_chunksize"):
+        R.CHUNKSIZE = case["default_chunksize"]
+        restore_default = lambda: setattr(R, "CHUNKSIZE", default_before)  # noqa: E731
+    else:
+        restore_default = lambda: None  # noqa: E731
     cols = columns(n)
     d = runner.fresh_dir("c18")
     log = Log()
@@ -421,6 +430,9 @@ def run_case(case):
         C.split_into_patches = orig_split
         for r in restore:
             r()
+        restore_default()
+    if cs is None:  # the module default (lowered for this case) is the configured chunk size
+        cs = case["default_chunksize"]
     tag = "parquet" if src.startswith("pq") else src
     total = sum(cat.get_num_records())
     if total != n:
